@@ -53,8 +53,22 @@ func (t treeI) Eval(userCtx interface{}, node parsley.NonTerminalNode) (interfac
 
 type checkerI struct{ treeI }
 
+// pass2 is the user context of a SECOND StaticCheck pass over a tree that has been checked before: the checkers record
+// that they ran, add bump to their schema and fail at another node (or nowhere) - a pass must reach every node again
+type pass2 struct {
+	bump, failc int
+	trace       []int
+}
+
 func (t checkerI) StaticCheck(userCtx interface{}, node parsley.NonTerminalNode) (interface{}, parsley.Error) {
 	id := nodeID(node)
+	if p2, ok := userCtx.(*pass2); ok {
+		p2.trace = append(p2.trace, id)
+		if id == p2.failc {
+			return nil, parsley.NewErrorf(node.Pos(), "err%d", id)
+		}
+		return 1000 + 10*id + childSchemasGo(node.Children())%1000 + p2.bump, nil
+	}
 	if id == t.failc {
 		return nil, parsley.NewErrorf(node.Pos(), "err%d", id)
 	}
@@ -276,6 +290,10 @@ func c13Exec(c *Sexp) Outcome {
 		check = cerr.Error()
 	}
 	after := showTree(root2, lids2)
+	// a second StaticCheck pass over the SAME tree objects, with another user context (other schemas, no failing node)
+	p2 := &pass2{bump: 5, failc: -1}
+	cerr2 := parsley.StaticCheck(p2, root2)
+	after2 := showTree(root2, lids2)
 	// Transform on a fresh tree
 	lids3 := map[int]int{}
 	root3 := buildTree(tree, failc, failt, lids3)
@@ -317,6 +335,18 @@ func c13Exec(c *Sexp) Outcome {
 	}
 	if fail == "" && (wantCheck != check || rt.show() != after) {
 		fail = fmt.Sprintf("StaticCheck gave %s / %s; bottom-up reference gives %s / %s", check, after, wantCheck, rt.show())
+	}
+	if fail == "" {
+		var want2 []int
+		for _, n := range po {
+			if n.kind == "nt" && n.k >= 0 && (n.k%4 == 1 || n.k%4 == 3) {
+				want2 = append(want2, n.id)
+				n.schema = 1000 + 10*n.id + refChildSchemas(n.children)%1000 + 5
+			}
+		}
+		if cerr2 != nil || fmt.Sprint(want2) != fmt.Sprint(p2.trace) || rt.show() != after2 {
+			fail = fmt.Sprintf("a SECOND StaticCheck pass over the checked tree (another user context, no failing node) returned %v, ran the checkers of %v and left %s; every checker in post-order is %v, leaving %s", cerr2, p2.trace, after2, want2, rt.show())
+		}
 	}
 	rt2 := refTree(tree)
 	wt, we := rt2.transform(failt)
